@@ -29,6 +29,10 @@ class Block(object):
     __slots__ = ('id', 'elems', 'term', 'tcond', 'label', 'succ', 'usucc', 'preds', 'tdbranch')
 
 
+_NEG_OP = {'==': '!=', '!=': '==', '<': '>=', '>=': '<', '<=': '>', '>': '<='}
+_SWAP_OP = {'==': '==', '!=': '!=', '<': '>', '>': '<', '<=': '>=', '>=': '<='}
+
+
 class Fn(object):
     def __init__(self, d, unit):
         self.d = d
@@ -99,6 +103,76 @@ class Fn(object):
     # ---------------- predicate helpers seen through ----------------
     _STMT_KEYS = ('init', 'cond', 'then', 'else', 'body', 'lhs', 'sub', 'decls', 'cvar', 'inc', 'range', 'handlers')
 
+    def _helper_ctx(self, call):
+        """(helper Fn, {param ref -> argument node}) for a call of a resolved, non-virtual function of the same unit
+        (free / static, or a method of the same class called on `this`); None otherwise"""
+        P = getattr(self, 'P', None)
+        n = self.nodes[call]
+        if P is None or n['k'] not in ('CallExpr', 'CXXMemberCallExpr') or not n.get('callee') or n.get('virt'):
+            return None
+        g = P.fns.get(n['callee'])
+        if g is None or g is self or g.types is not self.types or g.body is None or g.body < 0 or g.entry is None:
+            return None
+        if n['k'] == 'CXXMemberCallExpr':
+            o = self.obj(call)
+            if g.record != self.record or o is None or self.nodes[self.strip(o)]['k'] != 'CXXThisExpr':
+                return None
+        elif g.kind not in ('function',) and g.record and g.record != self.record:
+            return None
+        args = self.args(call)
+        if len(args) != len(g.params):
+            return None
+        # a parameter the helper modifies (n -= res; ++p) does not stand for the caller's argument any more: it stays opaque
+        g.defs_of_var('')
+        amap = {}
+        for p, a in zip(g.params, args):
+            if len(g._defs.get(p['ref'], [])) == 0:
+                amap[p['ref']] = a
+        return g, amap
+
+    def _import(self, g, j, amap, call, strict=True):
+        """copy of expression j of helper g in this function's node table, parameters replaced by the argument nodes of `call`;
+        locals of the helper stay opaque (`h:` refs) unless strict, then ValueError"""
+        key = (g.id, j, call, strict)
+        if not hasattr(self, '_imp'):
+            self._imp = {}
+        if key in self._imp:
+            if self._imp[key] is None:
+                raise ValueError('cached')
+            return self._imp[key]
+        line = self.nodes[call]['l']
+
+        def clone(x):
+            m = g.nodes[x]
+            if any(k in m for k in self._STMT_KEYS) or m['k'] in ('LambdaExpr', 'StmtExpr'):
+                raise ValueError(m['k'])
+            if m['k'] == 'DeclRefExpr' and m.get('ref') in amap:
+                return amap[m['ref']]
+            c = dict(m)
+            if m['k'] == 'DeclRefExpr' and m.get('ref', '').startswith(('v:', 'p:')):
+                if strict:
+                    raise ValueError('local')
+                c['ref'] = 'h:' + m['ref']
+            c['l'] = line
+            c['inl'] = call
+            i = len(self.nodes)
+            c['i'] = i
+            self.nodes.append(c)
+            c['ch'] = [clone(y) for y in m['ch']]
+            for y in c['ch']:
+                if y >= self._n_own:
+                    self.parent[y] = i
+            return i
+        keep = len(self.nodes)
+        try:
+            r = clone(j)
+        except ValueError:
+            del self.nodes[keep:]
+            self._imp[key] = None
+            raise
+        self._imp[key] = r
+        return r
+
     def inline_pred(self, call):
         """`helper(a, b)` where helper is a resolved, non-virtual function of the same unit whose whole body is
         `return E;`: a copy of E in this function's node table with the parameters replaced by the argument
@@ -106,56 +180,63 @@ class Fn(object):
         if call in self._inl:
             return self._inl[call]
         self._inl[call] = None
-        P = getattr(self, 'P', None)
-        n = self.nodes[call]
-        if P is None or n['k'] not in ('CallExpr', 'CXXMemberCallExpr') or not n.get('callee') or n.get('virt'):
+        hc = self._helper_ctx(call)
+        if hc is None:
             return None
-        g = P.fns.get(n['callee'])
-        if g is None or g is self or g.types is not self.types or g.body is None or g.body < 0:
-            return None
+        g, amap = hc
         b = g.nodes[g.body]
         if b['k'] != 'CompoundStmt' or len(b['ch']) != 1 or g.nodes[b['ch'][0]]['k'] != 'ReturnStmt' or not g.nodes[b['ch'][0]]['ch']:
             return None
-        if n['k'] == 'CXXMemberCallExpr':
-            o = self.obj(call)
-            if g.record != self.record or o is None or self.nodes[self.strip(o)]['k'] != 'CXXThisExpr':
-                return None
-        elif g.kind not in ('function',) and not g.d.get('static'):
-            if g.record:
-                return None
-        args = self.args(call)
-        if len(args) != len(g.params):
-            return None
-        amap = {p['ref']: a for p, a in zip(g.params, args)}
-        line = n['l']
-
-        def clone(j):
-            m = g.nodes[j]
-            if any(k in m for k in self._STMT_KEYS) or m['k'] in ('LambdaExpr', 'StmtExpr'):
-                raise ValueError(m['k'])
-            if m['k'] == 'DeclRefExpr' and m.get('ref') in amap:
-                return amap[m['ref']]
-            if m['k'] == 'DeclRefExpr' and m.get('ref', '').startswith(('v:', 'p:')):
-                raise ValueError('local')
-            c = dict(m)
-            c['l'] = line
-            c['inl'] = call
-            i = len(self.nodes)
-            c['i'] = i
-            self.nodes.append(c)
-            c['ch'] = [clone(x) for x in m['ch']]
-            for x in c['ch']:
-                if x >= self._n_own:
-                    self.parent[x] = i
-            return i
-        keep = len(self.nodes)
         try:
-            root = clone(g.nodes[b['ch'][0]]['ch'][0])
+            root = self._import(g, g.nodes[b['ch'][0]]['ch'][0], amap, call, strict=True)
         except ValueError:
-            del self.nodes[keep:]
             return None
         self._inl[call] = root
         return root
+
+    def helper_implies(self, pred, call, pol):
+        """a bool helper with several returns: does `call` evaluating to `pol` imply a fact accepted by pred?  True iff every
+        return of the helper that can yield `pol` is reachable only through branch edges (of the helper) whose facts, re-expressed
+        over the caller's arguments, pred accepts"""
+        hc = self._helper_ctx(call)
+        if hc is None or getattr(self, '_hi_depth', 0) >= 2:
+            return False
+        g, amap = hc
+        if not (g.ret or '').replace('const ', '').strip() in ('bool', '_Bool'):
+            return False
+
+        def pred_g(a, p):
+            try:
+                j = self._import(g, a, amap, call, strict=False)
+            except ValueError:
+                return False
+            return pred(j, p)
+        rets = []
+        for r in g.returns():
+            v = g.ret_value(r)
+            if v is None:
+                return False
+            cv = g.const_value(v)
+            if cv is None:
+                rets.append((r, v))                    # may be either
+            elif bool(cv) == bool(pol):
+                rets.append((r, None))
+        if not rets:
+            return False
+        self._hi_depth = getattr(self, '_hi_depth', 0) + 1
+        g._hi_depth = getattr(g, '_hi_depth', 0) + 1
+        try:
+            gates = [e for e in g.gate_edges(pred_g) if len(e) == 4]
+            for (r, v) in rets:
+                if g.only_through(r, gates):
+                    continue
+                if v is not None and any(g.fact_satisfies(pred_g, a, p) for (a, p) in g.cond_facts(v, pol)):
+                    continue
+                return False
+            return True
+        finally:
+            self._hi_depth -= 1
+            g._hi_depth -= 1
 
     def ancestors(self, i):
         while i in self.parent:
@@ -173,6 +254,28 @@ class Fn(object):
         for i in it:
             if self.nodes[i]['k'] in CALL_KINDS:
                 yield i
+
+    def calls_deep(self, depth=1):
+        """own call nodes plus, for every call of a same-unit helper (see _helper_ctx), copies of the helper's call nodes with the
+        helper's parameters replaced by the arguments of that call.  A copy takes the CFG position of the call site, so
+        domination queries treat it as happening where the helper is called."""
+        out = list(self.calls())
+        if depth <= 0:
+            return out
+        for c in list(out):
+            hc = self._helper_ctx(c)
+            if hc is None:
+                continue
+            g, amap = hc
+            for j in g.calls():
+                try:
+                    k = self._import(g, j, amap, c, strict=False)
+                except ValueError:
+                    continue
+                if c in self.pos and k not in self.pos:
+                    self.pos[k] = self.pos[c]
+                out.append(k)
+        return out
 
     def callee(self, i):
         return self.nodes[i].get('cn')
@@ -429,6 +532,11 @@ class Fn(object):
                 return self.cond_facts(n['ch'][0], False, depth) + self.cond_facts(n['ch'][1], False, depth)
             return [(i, polarity)]
         out = [(i, polarity)]
+        if k in ('BinaryOperator', 'CXXOperatorCallExpr') and n.get('op') in _NEG_OP and not n.get('syn'):
+            # equivalent spellings of the same fact: a != b false == (a == b) true, a < b == b > a, ...  Rules written for one
+            # spelling then hold for all of them (synthetic nodes, outside all_nodes())
+            for (j, flip) in self._cmp_twins(i):
+                out.append((j, polarity if not flip else (not polarity)))
         if k in ('CallExpr', 'CXXMemberCallExpr') and depth < 3:
             root = self.inline_pred(i)
             if root is not None:
@@ -439,6 +547,27 @@ class Fn(object):
                 if polarity or src[1]:
                     out += self.cond_facts(src[0], polarity, depth + 1)
         return out
+
+    def _cmp_twins(self, i):
+        if not hasattr(self, '_twins'):
+            self._twins = {}
+        if i in self._twins:
+            return self._twins[i]
+        n = self.nodes[i]
+        res = []
+        ops = [(_NEG_OP[n['op']], True, False)]
+        if n['k'] == 'BinaryOperator' and len(n['ch']) == 2:
+            ops += [(_SWAP_OP[n['op']], False, True), (_NEG_OP[_SWAP_OP[n['op']]], True, True)]
+        for (op, flip, swap) in ops:
+            c = {k_: v_ for k_, v_ in n.items() if k_ not in ('cv', 'cn', 'callee', 'ov', 'rec')}
+            c['op'] = op
+            c['syn'] = 1
+            c['ch'] = list(reversed(n['ch'])) if swap else list(n['ch'])
+            c['i'] = len(self.nodes)
+            self.nodes.append(c)
+            res.append((c['i'], flip))
+        self._twins[i] = res
+        return res
 
     def flag_source(self, ref):
         """(expr, exact) such that  flag==true  implies  expr==true  (and, when exact, flag==false implies expr==false).
@@ -680,10 +809,39 @@ class Fn(object):
             out.append((s, lab, self._arrival_tag(b, s, lab, tag)))
         return out
 
+    def _switch_eq(self, cond, v):
+        """synthetic node `cond == v` for a switch edge (kept outside all_nodes(), like inlined predicate copies)"""
+        if not hasattr(self, '_sweq'):
+            self._sweq = {}
+        key = (cond, v)
+        if key not in self._sweq:
+            line = self.nodes[cond]['l']
+            lit = {'k': 'IntegerLiteral', 'l': line, 'c': 0, 'cv': v, 'ch': [], 'i': len(self.nodes), 'syn': 1}
+            self.nodes.append(lit)
+            eq = {'k': 'BinaryOperator', 'op': '==', 'l': line, 'c': 0, 'ch': [cond, lit['i']], 'i': len(self.nodes), 'syn': 1}
+            self.nodes.append(eq)
+            self.parent[lit['i']] = eq['i']
+            self._sweq[key] = eq['i']
+        return self._sweq[key]
+
     def edge_facts(self, frm, to_label, tag=None):
         B = self.blocks[frm]
         lc = self.leaf_cond(B)
-        if lc is None or lc[1] or to_label not in (True, False):
+        if lc is not None and lc[1]:
+            # switch edge: `case v` implies cond == v; `default` implies cond != v for every case value of this switch
+            if isinstance(to_label, tuple) and to_label[0] == 'case' and to_label[1] is not None:
+                return [(self._switch_eq(lc[0], to_label[1]), True)]
+            if to_label == 'default':
+                vals = set()
+                for s_ in B.succ:
+                    if s_ is None:
+                        continue
+                    L_ = self.blocks[s_].label
+                    if L_ is not None and self.nodes[L_]['k'] == 'CaseStmt' and self.nodes[self.nodes[L_]['lhs']].get('cv') is not None:
+                        vals.add(self.nodes[self.nodes[L_]['lhs']]['cv'])
+                return [(self._switch_eq(lc[0], v), False) for v in sorted(vals)]
+            return []
+        if lc is None or to_label not in (True, False):
             return []
         facts = self.cond_facts(lc[0], to_label)
         if tag is not None and tag[1] == 'R' and self._confluence(frm) == tag[0]:
@@ -746,6 +904,8 @@ class Fn(object):
         if pred(atom, pol):
             return True
         n = self.nodes[atom]
+        if depth < 3 and n['k'] in ('CallExpr', 'CXXMemberCallExpr') and not n.get('syn') and self.helper_implies(pred, atom, pol):
+            return True
         if depth < 3 and n['k'] == 'BinaryOperator' and ((n.get('op') == '&&' and pol is False) or (n.get('op') == '||' and pol is True)):
             return all(any(self.fact_satisfies(pred, a, p, depth + 1) for (a, p) in self.cond_facts(c, pol)) for c in n['ch'])
         return False
